@@ -1102,6 +1102,11 @@ pub fn stream(rng: &mut Rng) -> Program {
         a.stream = Some(rand_stream(g.rng));
         a.aux_work = if g.rng.chance(1, 3) { *g.rng.pick(&LATTICE[..4]) } else { 0 };
         a.aux_yield = g.rng.chance(1, 4);
+        // one case in twelve: one long run of ready items (more than any small counter holds), instantaneous handlers
+        if g.rng.chance(1, 12) {
+            a.stream = Some(StreamSpec { bursts: vec![(0, g.rng.range(257, 700) as u32)], repeat: false, ends: true, always_ready: false });
+            a.aux_work = 0;
+        }
     }
     if g.rng.chance(1, 5) {
         a.started = vec![SStep::Yield];
@@ -2177,5 +2182,21 @@ pub fn stoprace(rng: &mut Rng) -> Program {
     for c in 0..n {
         g.prog.clients[c].push(Op::Await { slot: 0, by_ref: false });
     }
+    g.prog
+}
+
+/// family "bigburst": one client floods an unbounded mailbox with more messages than any fixed-size buffer someone
+/// might put behind it (65 536 + a bit); on L1 the actor does not run before the client yields, so the backlog is real
+pub fn bigburst(rng: &mut Rng) -> Program {
+    let mut g = G::new(rng);
+    let mut a = ActorDecl::plain(1);
+    a.mailbox = None;
+    a.entry = *g.rng.pick(&[Entry::Spawn, Entry::Builder]);
+    a.holders = vec![0];
+    g.prog.actors.push(a);
+    g.layout(1);
+    let count = *g.rng.pick(&[66_000u32, 70_000, 33_000, 130_000]);
+    g.prog.clients[0].push(Op::Burst { slot: 0, count, force_every: 0 });
+    g.prog.clients[0].push(Op::Call { slot: 0, script: vec![], cancel: None });
     g.prog
 }
